@@ -401,3 +401,90 @@ def replay_api(ctx, payload):
     ctx.cov["evaluations"] = len(payload["hist"])
     if r["rejects"]:
         ctx.violation(payload["signature"], payload["what"], dict(kind="api", cfg=payload["cfg"], hist=payload["hist"]))
+
+
+def check_C14(ctx):
+    ctx.cov["rule"] = ("(i) alias histories: the caller overwrites its WarriorData (code cells, Start, everything) after AddWarrior, between spawns, between cycles and before the re-spawn after Reset; "
+                       "the recorded trace carries the ORIGINAL data and is validated by TLC against MARS.tla, so any show-through is a rejected step; caller copies are compared after battles. "
+                       "(ii) a deterministic job set (assemble text under configurations that share CoreSize/Length but differ in Processes/Distance; battles built from SHARED WarriorData, "
+                       "also added to simulators of a smaller core) is run forwards, backwards and on 2/8/32 goroutines in separate processes built with -race; TLC checks that every job has the "
+                       "same result in every run and validates every concurrent battle trace; any 'DATA RACE' report of the race detector is a violation. "
+                       "distinct_nontrivial = caller mutations applied + jobs compared across runs.")
+    ctx.cov["trusted_base"] = ["Go race detector (monitor for the data-race clause)", "python merge of per-run job results", "harness recorder", "TLC"]
+    ctx.assumptions.append("data-race freedom is observed by the race detector on the executed interleavings, not proved")
+    r = ctx.tlc("MC_API", cfg="MC_API.cfg", workers=NCPU, timeout=3000, heap="16g")
+    ctx.notes["spec_model"] = "MC_API: AddW appends a copy; spec jobs share no variable (independence of interleaving is structural)"
+    # (i) alias
+    shards, st = gen_battles(ctx, "alias", ["-shards", 8 if ctx.quick else 32, "-n", 600 if ctx.quick else 20000], "alias")
+    rej = ctx.validate_shards("BattleTrace", shards, mode="C02", heap="4g")
+    ctx.sample(read_lines(shards[0])[:4])
+    reproduce_generic(ctx, "C14 alias", rej)
+    # (ii) jobs in separate processes
+    d = ctx.sub("jobs")
+    njobs = 240 if ctx.quick else 2400
+    runs = [("fwd", 1, False), ("rev", 1, False), ("par", 2, True), ("par", 8, True), ("par", 32, True)]
+    if not ctx.quick:
+        runs += [("par", 16, True), ("par", 32, True), ("par", 5, True)]
+    per_run = []
+    races = 0
+    for k, (order, th, race) in enumerate(runs):
+        prefix = os.path.join(d, "r%d" % k)
+        p = ctx.run_harness(["jobs", "-out", prefix, "-seed", ctx.seed, "-n", njobs, "-order", order, "-threads", th, "-reps", 2 if order == "par" else 1,
+                             "-warriors", os.path.join(REPO, "warriors")], race=race, check=False, timeout=3000)
+        if "DATA RACE" in p.stderr:
+            races += 1
+            ctx.violation("C14 data race (%s, %d threads)" % (order, th), "the race detector reported a data race while jobs ran concurrently",
+                          dict(kind="race", order=order, threads=th, report=p.stderr[:6000], cmd="vharness(-race) jobs -seed %d -n %d -order %s -threads %d" % (ctx.seed, njobs, order, th)))
+        elif p.returncode != 0:
+            raise ToolError("jobs run failed: " + p.stderr[-2000:])
+        per_run.append(prefix + ".000.ndjson")
+    # merge: one jobcmp event per job id
+    results = {}
+    for f in per_run:
+        if not os.path.exists(f):
+            continue
+        for e in read_lines(f):
+            if e["ev"] == "job":
+                results.setdefault(e["id"], []).append(e["res"])
+    merged = os.path.join(d, "merged.ndjson")
+    with open(merged, "w") as f:
+        for i in sorted(results):
+            f.write(json.dumps(dict(ev="jobcmp", id=i, results=results[i])) + "\n")
+    rej2 = ctx.validate_shards("BattleTrace", [merged], mode="C14", heap="4g")
+    rej3 = ctx.validate_shards("BattleTrace", [f for f in per_run if os.path.exists(f)], mode="C02", heap="4g")
+    for shard, idx in rej2:
+        e = read_line(shard, idx)
+        ctx.violation("C14 job result differs between runs", "job %d gave different results in different orders/thread counts: %s" % (e["id"], json.dumps(e["results"])[:800]),
+                      dict(kind="jobcmp", event=e, seed=ctx.seed, njobs=njobs))
+    reproduce_generic(ctx, "C14 concurrent job", rej3)
+    ctx.cov["traces_validated_against_impl"] = st["histories"] + len(results)
+    ctx.cov["evaluations"] = st["histories"] + len(results) * len(runs)
+    ctx.cov["distinct_nontrivial"] = st["mutations"] + len(results)
+    ctx.notes.update(caller_mutations=st["mutations"], jobs=len(results), runs=[("%s x%d%s" % (o, t, " -race" if r_ else "")) for o, t, r_ in runs], data_race_reports=races)
+
+
+def reproduce_generic(ctx, label, rejects, cap=10):
+    """violations whose replay is the recorded trace itself (alias / job traces are produced by multi-step drivers)."""
+    seen = set()
+    for shard, idx in rejects:
+        tr, pos = trace_of(shard, idx)
+        e = tr[pos] if pos < len(tr) else read_line(shard, idx)
+        sig = "%s %s" % (label, e["ev"])
+        if sig in seen or len(seen) >= cap:
+            continue
+        seen.add(sig)
+        ctx.violation(sig, "%s: event '%s' is not a behaviour of the specification: %s" % (label, e["ev"], json.dumps(e)[:600]),
+                      dict(kind="trace", mode="C02", trace=tr, failing_index=pos))
+
+
+def replay_trace(ctx, payload):
+    d = ctx.sub("replay")
+    src = os.path.join(d, "in.ndjson")
+    with open(src, "w") as f:
+        for e in payload["trace"]:
+            f.write(json.dumps(e) + "\n")
+    r = ctx.tlc("BattleTrace", env=dict(VERIF_TRACE=src, VERIF_MODE=payload.get("mode", "C02")))
+    ctx.cov["traces_validated_against_impl"] = 1
+    ctx.cov["evaluations"] = len(payload["trace"])
+    if r["rejects"]:
+        ctx.violation(payload["signature"], payload["what"], dict(kind="trace", trace=payload["trace"]))
